@@ -203,5 +203,7 @@ func (k Keeper) GetCollateralAmount(ctx sdk.Context, address sdk.AccAddress) (sd
 	if err != nil {
 		return sdk.NewInt(0), err
 	}
-	return operator.Collateral[0].Amount, nil
+	// the weight of an operator is its collateral in the bond denomination (the one
+	// the minimum collateral is measured in), not whichever coin sorts first
+	return operator.Collateral.AmountOf(k.stakingKeeper.BondDenom(ctx)), nil
 }
